@@ -321,6 +321,172 @@ func showName(n string) string {
 	return hexs(n)
 }
 
+// ---- which expressions the resolver model answers for (twin of lean/Pcore/Model/Resolve.lean Expr.outsideB) ------------------
+
+// modelled kinds, plain names, names without a positional creator, core names outside the model, second spellings and the
+// names no harness context defines: twins of allKinds / plainNames / notParamNames / coreOther / spellings (Model/Types.lean,
+// Model/Resolve.lean) and unknownNames (Driver/Syntax.lean)
+var kindNames = set("Integer", "Float", "String", "Boolean", "Enum", "Regexp", "Pattern", "Variant", "Array", "Hash", "Collection", "Tuple", "Struct", "Callable", "Runtime",
+	"TypeReference", "Optional", "NotUndef", "Type", "Sensitive", "Iterable", "Iterator")
+var plainNames = set("Any", "Unit", "Undef", "Default", "Scalar", "ScalarData", "Numeric", "Data", "RichData", "Binary", "Timespan", "Timestamp", "SemVer", "SemVerRange", "URI", "Object",
+	"Init", "TypeSet")
+var notParamNames = set("Any", "Unit", "Undef", "Default", "Scalar", "ScalarData", "Numeric", "Data", "RichData", "Binary")
+var coreOther = set("Annotation", "Like", "TypeAlias")
+var spellings = map[string]string{"Notundef": "NotUndef", "RegExp": "Regexp", "Richdata": "RichData", "Scalardata": "ScalarData", "Semver": "SemVer", "Semverrange": "SemVerRange",
+	"SemverRange": "SemVerRange", "TimeSpan": "Timespan", "TimeStamp": "Timestamp", "Typealias": "TypeAlias", "Typereference": "TypeReference", "Typeset": "TypeSet", "Uri": "URI"}
+
+// UnknownNames: type names that no context of the harness defines (they resolve to a TypeReference)
+var UnknownNames = set("Foo", "Bar", "My::Thing", "My::Other", "Catalogentry", "Foo::Bar")
+
+func set(xs ...string) map[string]bool {
+	m := map[string]bool{}
+	for _, x := range xs {
+		m[x] = true
+	}
+	return m
+}
+
+func canonName(n string) string {
+	if c, ok := spellings[n]; ok {
+		return c
+	}
+	return n
+}
+
+func nameModelled(n string, hasParams bool) bool {
+	c := canonName(n)
+	if kindNames[c] {
+		return true
+	}
+	if plainNames[c] {
+		return !hasParams || notParamNames[c]
+	}
+	return !coreOther[c] && UnknownNames[n]
+}
+
+func nonASCII(v px.Value) bool {
+	switch v := v.(type) {
+	case px.StringValue:
+		for _, c := range v.String() {
+			if c >= 0x80 {
+				return true
+			}
+		}
+	case *types.DeferredType:
+		for _, p := range v.Parameters() {
+			if nonASCII(p) {
+				return true
+			}
+		}
+	case types.Deferred:
+		r := false
+		v.Arguments().Each(func(e px.Value) { r = r || nonASCII(e) })
+		return r
+	case *types.HashEntry:
+		return nonASCII(v.Key()) || nonASCII(v.Value())
+	case *types.Hash:
+		r := false
+		v.EachPair(func(k, e px.Value) { r = r || nonASCII(k) || nonASCII(e) })
+		return r
+	case *types.Array:
+		r := false
+		v.Each(func(e px.Value) { r = r || nonASCII(e) })
+		return r
+	}
+	return false
+}
+
+// Modelled: does the resolver model answer for this parse result (nothing in it lies outside the model)?
+func Modelled(v px.Value) bool {
+	switch v := v.(type) {
+	case *types.DeferredType:
+		ps := v.Parameters()
+		if !nameModelled(v.Name(), ps != nil) {
+			return false
+		}
+		for _, p := range ps {
+			if !Modelled(p) {
+				return false
+			}
+		}
+		if canonName(v.Name()) == "Enum" {
+			for _, p := range ps {
+				if nonASCII(p) {
+					return false
+				}
+			}
+		}
+		return true
+	case types.Deferred:
+		return false
+	case *types.HashEntry:
+		return Modelled(v.Key()) && Modelled(v.Value())
+	case *types.Hash:
+		r := true
+		v.EachPair(func(k, e px.Value) { r = r && Modelled(k) && Modelled(e) })
+		return r
+	case *types.Array:
+		r := true
+		v.Each(func(e px.Value) { r = r && Modelled(e) })
+		return r
+	case *types.UndefValue, *types.DefaultValue, px.Boolean, px.Integer, px.Float, px.StringValue, *types.Regexp:
+		return true
+	}
+	return false // the result of `type X = …` (alias, object, type set) and anything else
+}
+
+// ProgramFormat is the property's "program format": %p for every value, no delimiter flag (NOT types.Program).
+func ProgramFormat() px.FormatContext {
+	return px.NewFormatContext(types.DefaultAnyType(), px.NewFormat("%p"), types.DefaultIndentation)
+}
+
+// FloatOracle renders the float-text oracle of a type text: ((BITS xTEXT)…) for every float literal in it (the bounds of
+// Float types can only come from float literals: an Integer bound is refused); "" when there is none.  The literals are
+// collected from the PARSED expression, not from the resolved type: Accept() of a type that holds a default Init dereferences
+// nil and would stop the walk early.
+func FloatOracle(text string) string {
+	if !strings.Contains(text, "Float") {
+		return ""
+	}
+	p := Parse(text)
+	if p.Kind != "value" {
+		return ""
+	}
+	seen := map[uint64]bool{}
+	out := []string{}
+	var walk func(v px.Value, depth int)
+	walk = func(v px.Value, depth int) {
+		if depth > 200 {
+			return
+		}
+		switch x := v.(type) {
+		case px.Float:
+			if b := math.Float64bits(x.Float()); !seen[b] {
+				seen[b] = true
+				out = append(out, "("+strconv.FormatUint(b, 10)+" "+hexs(px.ToString2(x, ProgramFormat()))+")")
+			}
+		case *types.DeferredType:
+			for _, e := range x.Parameters() {
+				walk(e, depth+1)
+			}
+		case types.Deferred:
+			x.Arguments().Each(func(e px.Value) { walk(e, depth+1) })
+		case *types.HashEntry:
+			walk(x.Key(), depth+1)
+			walk(x.Value(), depth+1)
+		case *types.Hash:
+			x.EachPair(func(k, e px.Value) { walk(k, depth+1); walk(e, depth+1) })
+		case *types.Array:
+			x.Each(func(e px.Value) { walk(e, depth+1) })
+		}
+	}
+	_ = Safely(func() px.Value { walk(p.Val, 0); return px.Undef })
+	if len(out) == 0 {
+		return ""
+	}
+	return " (" + strings.Join(out, " ") + ")"
+}
+
 // ---- oracles -----------------------------------------------------------------------------------------------
 
 // BadRegexps lists (unescaped, de-duplicated, in order of first occurrence) every regexp body and every string body
